@@ -182,4 +182,25 @@ mod verif_app_wit {
         assert_eq!(responses.len(), 3, "three queries after expansion, one response each; found {}", serde_json::to_string(&responses).unwrap());
         assert_eq!(responses.iter().filter(|r| r.get("error").is_some()).count(), 1, "only the child that fails is an error response");
     }
+
+    /// C12: ill-typed or out-of-range vertex fields -- each query is answered with an ERROR response that echoes it (it is not run as some other query)
+    #[test]
+    fn c12_wit_ill_typed_vertex_fields() {
+        let app = load_app();
+        let bad = vec![
+            json!({"id": 0, "origin_vertex": 0, "destination_vertex": "2"}), json!({"id": 1, "origin_vertex": 0, "destination_vertex": -1}),
+            json!({"id": 2, "origin_vertex": 0, "destination_vertex": 2.5}), json!({"id": 3, "origin_vertex": 0, "destination_vertex": [2]}),
+            json!({"id": 4, "origin_vertex": "0", "destination_vertex": 2}), json!({"id": 5, "origin_vertex": 0, "destination_vertex": 999999}),
+            json!({"id": 6, "origin_vertex": 999999, "destination_vertex": 2}), json!({"id": 7, "origin_vertex": 999999}),
+        ];
+        let mut batch = bad.clone();
+        batch.push(json!({"id": 100, "origin_vertex": 0, "destination_vertex": 2}));
+        let responses = app.run(batch, None).expect("user-level errors are responses, not a failed run");
+        assert_eq!(responses.len(), bad.len() + 1, "one response per query");
+        for q in bad.iter() {
+            let r = responses.iter().find(|r| r.get("request") == Some(q)).unwrap_or_else(|| panic!("query {} is echoed in a response", q));
+            assert!(r.get("error").is_some(), "ill-typed / out-of-range query {} is answered with an error response, found {}", q, r);
+        }
+        assert!(responses.iter().any(|r| r["request"]["id"] == 100 && r.get("error").is_none()), "the ordinary query is served");
+    }
 }
